@@ -527,7 +527,10 @@ def _check_platform_compatibility(py_platforms: Iterable[str]) -> bool:
 
 
 def _check_abi_compatibility(abi: str) -> bool:
-    return abi in ABI_TAGS
+    # The ABI tag may be a compressed tag set (PEP 425), e.g. "cp312.abi3".
+    return any(
+        abi_tag == "none" or abi_tag in ABI_TAGS for abi_tag in abi.split(".")
+    )
 
 
 class CantUseReason(enum.Enum):
